@@ -36,12 +36,16 @@ type params struct {
 	P      int
 	Store  string // default | payload
 	Narrow bool   // deviations only in the ack-wait path (withAckTimeoutCh, readResultLoop, readAckLoop): affordable with two deviations
+	SlowResume bool // the broker answers resume requests after 5 s
 	Silent bool   // the failure is a broker that goes silent (message dropped, nothing answered any more): the keep-alive detects the outage
 }
 
 func (p params) name() string {
 	if p.Narrow {
 		return fmt.Sprintf("%s/%s/F%d/P%d/%s/ackwait", p.Policy, strings.Join(p.Ops, ","), p.F, p.P, p.Store)
+	}
+	if p.SlowResume {
+		return fmt.Sprintf("%s/%s/F%d/P%d/%s/slowresume", p.Policy, strings.Join(p.Ops, ","), p.F, p.P, p.Store)
 	}
 	if p.Silent {
 		return fmt.Sprintf("%s/%s/F%d/P%d/%s/silent", p.Policy, strings.Join(p.Ops, ","), p.F, p.P, p.Store)
@@ -70,6 +74,11 @@ func scenarios(tier string) []vlib.Scenario {
 	add(params{Policy: "none", Ops: []string{"wA1", "F", "wB1", "F"}, F: 2, Store: "default"})
 	add(params{Policy: "immediate", Ops: []string{"wA1", "wB1"}, F: 1, P: 1, Store: "default"})
 	// the run context is cancelled before the ack channels are closed (one stall) and the ack wait then takes either select case
+	// the link fails while Close is waiting for acknowledgements; a write issued after the recovery, Close still pending
+	add(params{Policy: "none", Ops: []string{"wA1", "F", "Cbg", "Z", "wB1"}, F: 1, Store: "default"})
+	// Close while the stream is still resuming (the broker answers the resume request late)
+	add(params{Policy: "none", Ops: []string{"wA1", "F", "z1"}, F: 1, Store: "default", SlowResume: true})
+	add(params{Policy: "immediate", Ops: []string{"wA1", "wB1", "z1"}, F: 1, Store: "default", SlowResume: true})
 	// outages detected by the keep-alive (the broker goes silent) instead of by a read error
 	add(params{Policy: "immediate", Ops: []string{"wA1", "wB1"}, F: 1, P: 0, Store: "default", Silent: true})
 	add(params{Policy: "immediate", Ops: []string{"wA1", "wB1"}, F: 1, P: 1, Store: "default", Silent: true})
@@ -117,6 +126,7 @@ type wrec struct {
 }
 
 type world struct {
+	closeStarted bool
 	p        params
 	b        *sim.Broker
 	writes   []*wrec
@@ -172,14 +182,39 @@ func (w *world) script() *sim.Script {
 		}
 		return sim.NoFault
 	}
+	bgClose := false
+	for _, o := range w.p.Ops {
+		bgClose = bgClose || o == "Cbg"
+	}
+	if bgClose {
+		s.AckDelay = 5 * time.Second
+	}
 	s.AckChunk = func(c *sim.BConn, u *sim.UpStream, ch *sim.ChunkRec) sim.AckMode {
-		if vsched.Choose(fmt.Sprintf("ack-seq%d@%d", ch.Seq, c.Idx), 2) == 0 {
+		n := 2
+		if bgClose && c.Idx > 0 {
+			n = 3 // after the recovery the acknowledgement may also take 5 s: the Close that waits for it is still pending
+		}
+		switch vsched.Choose(fmt.Sprintf("ack-seq%d@%d", ch.Seq, c.Idx), n) {
+		case 0:
 			return sim.AckNow
+		case 2:
+			return sim.AckDelay
 		}
 		return sim.AckHold
 	}
+	if w.p.SlowResume {
+		s.OnMessage = func(b *sim.Broker, c *sim.BConn, m message.Message) bool {
+			if _, ok := m.(*message.UpstreamResumeRequest); ok {
+				vsched.AfterFunc(5*time.Second, "h:slow-resume", func() {
+					vsched.Spawn("h:slow-resume", func() { b.HandleDefault(c, m) })
+				})
+				return true
+			}
+			return false
+		}
+	}
 	s.UpResumeResult = func(c *sim.BConn, u *sim.UpStream, attempt int) message.ResultCode {
-		if attempt == 0 && vsched.Choose("resume-result", 2) == 1 {
+		if attempt == 0 && !w.p.SlowResume && vsched.Choose("resume-result", 2) == 1 {
 			return message.ResultCodeResumeRequestConflict
 		}
 		return message.ResultCodeSucceeded
@@ -222,6 +257,18 @@ func (w *world) doOp(ctx context.Context, up *iscp.Upstream, op string) {
 		up.Flush(ctx)
 	case "Z":
 		vsched.Sleep(3*time.Second, "h:Z")
+	case "z1":
+		vsched.Sleep(time.Second, "h:z1")
+	case "Cbg":
+		// Close in a thread of its own: the following operations run while it is pending
+		w.closeStarted = true
+		vsched.Go("h:closer", func() {
+			cctx, cancel := vcontext.WithTimeout(vcontext.Background(), 30*time.Second)
+			w.closeErr = up.Close(cctx)
+			cancel()
+			w.closeDone = true
+		})
+		vsched.Quiesce()
 	}
 }
 
@@ -266,12 +313,18 @@ func (w *world) main() {
 		w.doOp(octx, up, op)
 	}
 	w.phase = "settle"
-	vsched.Sleep(10*time.Second, "h:settle")
+	if !w.p.SlowResume {
+		vsched.Sleep(10*time.Second, "h:settle")
+	}
 	w.phase = "close"
-	cctx, cancel := vcontext.WithTimeout(ctx, 30*time.Second)
-	w.closeErr = up.Close(cctx)
-	cancel()
-	w.closeDone = true
+	if w.closeStarted {
+		vsched.WaitUntil("closer-done", func() bool { return w.closeDone })
+	} else {
+		cctx, cancel := vcontext.WithTimeout(ctx, 30*time.Second)
+		w.closeErr = up.Close(cctx)
+		cancel()
+		w.closeDone = true
+	}
 	w.phase = "post"
 	pctx, pcancel := vcontext.WithTimeout(ctx, time.Second)
 	ida := idA
